@@ -145,6 +145,34 @@ Inv_C18_NoIdleMetaepoch        == C18_NoIdleMetaepoch(st)
 \* C03 at the design level: the tree total is the sum over the demes, level by level
 Inv_C03_TotalIsSumOfLevels     == TotalEvals(st) = Sum([l \in 0..(NLevels(st) - 1) |-> LevelEvals(st, l)], 0..(NLevels(st) - 1))
 
+\* C03 at the design level: hard budget, requests = forwarded + refused, totals equal calls until the first refusal
+Inv_C03_BudgetHard             == C03_BudgetHard(st)
+Inv_C03_TotalEqualsCalls       == C03_TotalEqualsCalls(st)
+Inv_C03_RequestsSplit          == C03_RequestsSplit(st)
+\* beyond the list: deme clocks and the adaptive-mutation schedule
+Inv_G_ClockNotAhead            == G_ClockNotAhead(st)
+Inv_G_ClockInSync              == G_ClockInSync(st)
+Inv_G_SinceSproutRawNonNeg     == G_SinceSproutRawNonNeg(st)
+Inv_G_SinceSproutBounded       == G_SinceSproutBounded(st)
+\* expected to be VIOLATED (witness): with hibernation the raw distance to the last sprout does go negative
+Inv_G_SinceSproutRawNonNegAlways == \A d \in Ids(st) : st.D[d].active => SinceSproutRaw(st, d) >= 0
+
+(* Witnesses: each is expected to be VIOLATED - the state it excludes is an antecedent some clause above needs,
+   so its reachability shows that the clause is not vacuous in the bounded model (harness/mod_model.py) *)
+W_BudgetNeverRefuses    == st.refused = 0
+W_BudgetNeverCutsABatch == ~(st.refused > 0 /\ st.fwd > 0 /\ \E d \in Ids(st) : st.D[d].evals > st.fwd)
+W_NoGscWithDemesQueued  == ~(st.gscSeen /\ st.pc = "meta" /\ Len(st.queue) >= 1)
+W_NoGscAtLoopHeadFirst  == ~(st.pc = "done" /\ st.mc = 0)
+W_LevelNeverFull        == st.cfg.limit = NoLimit \/ \A l \in 1..(NLevels(st) - 1) : Cardinality(ActiveOn(st, l)) < st.cfg.limit
+W_NoSlotRefilled        == ~(\E l \in 1..(NLevels(st) - 1) : Len(st.L[l + 1]) > st.cfg.limit /\ st.cfg.limit # NoLimit)
+W_NobodyHibernates      == \A d \in Ids(st) : ~st.D[d].hib
+W_NobodyWakes           == ~(\E d \in Ids(st) : st.D0 # <<>> /\ d \in DOMAIN st.D0 /\ st.D0[d].hib /\ ~st.D[d].hib /\ st.D[d].active)
+W_NoSelfStop            == \A d \in Ids(st) : st.D[d].why # "self" \/ Eng(st, d) = "LOCAL"
+W_NoThirdLevelDeme      == \A d \in Ids(st) : st.D[d].lvl < 2
+W_NoWindDown            == \A d \in DOMAIN st.wind : st.wind[d] = 0
+W_NoJustFinishedOffer   == ~(LocalMethod(st) /\ \E d \in Ids(st) : ~st.D[d].active /\ Kids(st, d) # {} /\
+                                   \E c \in Kids(st, d) : st.D[c].startedAt > Clock(st, d))
+
 (* Action clauses *)
 Act_C05_NoSproutAfterGsc   == [][C05_NoSproutAfterGsc(st, st')]_vars
 Act_C06_InactiveFrozen     == [][C06_InactiveFrozen(st, st')]_vars
